@@ -439,6 +439,29 @@ _add('C06', 'DeeprobModel.Props.RealWitnesses', _RW, ['sum_mpe_as_coded_real'], 
 _add('C11', 'DeeprobModel.Props.RealWitnesses', _RW, ['fit_tree_maximal_real', 'mutualInfo_as_coded_real'], [])
 _add('C14', 'DeeprobModel.Props.RealWitnesses', _RW, ['gaussian_em_sigma_pos_real', 'gradRoot_denotes_real'], [])
 _add('C19', 'DeeprobModel.Props.RealWitnesses', _RW, ['skewness_sigma_real'], [])
+# round 5 (translator wave 5, part 4): the loops AROUND the bodies extracted earlier — eval_bottom_up / eval_top_down (serial paths), moment,
+# BinaryCLT.message_passing / mpe (sample: fragment only), skeletons of the prune / marginalize passes
+_S5E = ['fill_set_eq_append', 'upTask_as_coded', 'upLoop_as_coded', 'genTable_as_coded', 'llTable_as_coded', 'moGenTable_as_coded', 'evalUp_as_coded', 'evalUp_raises',
+        'moment_as_coded', 'downTask_as_coded', 'downLoop_as_coded', 'evalDown_as_coded', 'evalDown_raises']
+_F5E = ['evaluation.eval_bottom_up.loop', 'evaluation.eval_top_down.loop', 'moments.moment.loop']
+_add('C01', _O + 'Struct5Eval', 'Deeprob.Struct5E', _S5E, _F5E)
+_add('C01', 'DeeprobModel.Props.E2EEval', 'Deeprob.E2EEval', ['e2e_eval_forward_loop', 'e2e_eval_bottom_up', 'e2e_eval_forward_normalised_loop', 'e2e_log_likelihood_loop'], [])
+_add('C02', _O + 'Struct5Eval', 'Deeprob.Struct5E', _S5E[:8], _F5E[:1])
+_add('C02', 'DeeprobModel.Props.E2EEval', 'Deeprob.E2EEval', ['e2e_eval_forward_marginal_loop', 'e2e_eval_forward_all_missing_loop'], [])
+_add('C19', _O + 'Struct5Eval', 'Deeprob.Struct5E', ['moGenTable_as_coded', 'moment_as_coded'], [_F5E[0], _F5E[2]])
+_add('C19', 'DeeprobModel.Props.E2EEval', 'Deeprob.E2EEval', ['e2e_moment_loop'], [])
+for _p in ('C06', 'C07'):
+    _add(_p, _O + 'Struct5Eval', 'Deeprob.Struct5E', ['downTask_as_coded', 'downLoop_as_coded', 'evalDown_as_coded', 'evalDown_raises'], [_F5E[1]])
+    _add(_p, 'DeeprobModel.Props.E2EEval', 'Deeprob.E2EEval', ['e2e_eval_top_down', 'e2e_eval_top_down_keeps_observed'], [])
+_S5C = ['msg_step_local', 'msg_loop_as_coded', 'msg_value_as_coded', 'mpe_loop_as_coded', 'mpe_composed_as_coded']
+_add('C02', _O + 'Struct5Clt', 'Deeprob.Oblig.Struct5Clt', _S5C[:3], ['cltree.message_passing.loop'])
+_add('C02', 'DeeprobModel.Props.E2ECltLoop', 'Deeprob.E2ECltLoop', ['loopMp_messages', 'loopMp_value', 'e2e_message_passing_marginal_loop'], [])
+_add('C06', _O + 'Struct5Clt', 'Deeprob.Oblig.Struct5Clt', _S5C, ['cltree.message_passing.loop', 'cltree.mpe.loop'])
+_add('C06', 'DeeprobModel.Props.E2ECltLoop', 'Deeprob.E2ECltLoop', ['loopMpe_eq', 'e2e_message_passing_max_loop', 'e2e_mpe_is_argmax_loop'], [])
+_add('C07', _O + 'Struct5Clt', 'Deeprob.Oblig.Struct5Clt', [], ['cltree.sample.loop'])
+_add('C10', _O + 'Struct5Rewrite', 'Deeprob.Oblig.Struct5Rewrite', ['margPassLoop_shape_partial', 'margPassLoop_not_dag'], ['structure.marginalize.loop'])
+_add('C10', 'DeeprobModel.Props.E2ERewriteLoop', 'Deeprob.E2ERewriteLoop', ['mgLoopMarginalize_eq', 'e2e_marginalize_loop_partial'], [])
+_add('C09', _O + 'Struct5Rewrite', 'Deeprob.Oblig.Struct5Rewrite', [], ['structure.prune.loop'])
 # round 5: the Gaussian leaf (density as SciPy evaluates it, normalisation, mode, raw moments of every order as integrals)
 _GT = 'Deeprob.GaussTheory'
 _add('C01', 'DeeprobModel.Props.GaussTheory', _GT, ['gauss_exp_logpdf', 'gauss_integral_one', 'gaussPdf_pos'], [])
